@@ -671,10 +671,9 @@ def rule_index_domain(prog):
             if "/tests" in c.file_of(b["sp"]) or c.file_of(b["sp"]).endswith("tests.rs"):
                 continue
             for pos, parents in hir.walk(b["body"]):
-                if pos.get("k") != "MethodCall" or pos["m"] not in ("position", "rposition") or not pos.get("args"):
+                is_enum = pos.get("k") == "MethodCall" and pos["m"] == "enumerate"
+                if pos.get("k") != "MethodCall" or not ((pos["m"] in ("position", "rposition") and pos.get("args")) or is_enum):
                     continue
-                if not (hir.callee(pos) or pos.get("d") or "").startswith("core::") and "iter" not in (pos.get("d") or hir.callee(pos) or ""):
-                    pass
                 r_ = hir.strip(pos["recv"])
                 chain = []
                 while r_.get("k") == "MethodCall" and r_["m"] in DISTORT + NEUTRAL + ("rev",):
@@ -690,7 +689,33 @@ def rule_index_domain(prog):
                     continue
                 # the locals that hold the index
                 ids = set()
-                if parents:
+                if is_enum:
+                    # `(i, x)` in the closures of the adaptors behind enumerate() and in the pattern of a `for` over it
+                    child = pos
+                    for pr in reversed(list(parents)):
+                        if pr.get("k") == "MethodCall" and any(x is child for x in hir.nodes(pr["recv"])):
+                            for a_ in pr.get("args") or []:
+                                a_ = hir.strip(a_)
+                                if a_.get("k") == "Closure":
+                                    for q_ in a_.get("params", []):
+                                        q2 = hir.pat_strip(q_)
+                                        if q2.get("k") == "Tuple" and q2.get("pats"):
+                                            for bd in hir.pat_bindings(q2["pats"][0]):
+                                                ids.add(bd["id"])
+                            child = pr
+                        elif pr.get("k") == "ForLoop" and pr.get("pat") is not None:
+                            q2 = hir.pat_strip(pr["pat"])
+                            if q2.get("k") == "Tuple" and q2.get("pats"):
+                                for bd in hir.pat_bindings(q2["pats"][0]):
+                                    ids.add(bd["id"])
+                            break
+                        elif pr.get("k") in ("Paren", "DropTemps", "AddrOf", "Call", "Match", "BlockExpr", "Block"):
+                            # (a `for` loop is lowered to `match IntoIterator::into_iter(<iter>) { .. loop { .. } }`)
+                            child = pr
+                            continue
+                        else:
+                            break
+                elif parents:
                     pr = parents[-1]
                     if pr.get("k") == "MethodCall" and any(x is pos for x in hir.nodes(pr["recv"])) and pr.get("args"):
                         for a_ in pr["args"]:
